@@ -50,6 +50,8 @@ def run(ctx):
     ctx.step(writer, ctx)
     # the writer's waits end only if every registration is given back exactly once
     from . import c03
+    # ... and only if nobody is registered who never took a handle (every constructor starts the counters at zero)
+    ctx.step(c03.initial_state, ctx, "C14.initial")
     ctx.step(c03.reader_rules, ctx, "C14.reader")
     ctx.step(c03.deleter_rules, ctx, "C14.release")
     ctx.step(read_then_write, ctx)
